@@ -6,6 +6,7 @@ import copy
 from checks import c01, c02
 from simkit import nodes, refdec, workload as W
 from simkit import terms as T
+from simkit.kernel import HarnessError
 
 ID = "C03"
 LEVEL = "exploration"
@@ -21,7 +22,7 @@ COMPONENTS = {"real": ["pyjelly serializers of both integrations", "protobuf upb
               "stub": ["reader: simkit.wire + simkit.refdec (independent codec and spec state machine)"]}
 ASSUMPTIONS = ["the reference decoder's reading of rdf.proto (DESIGN.md section 3)",
                "inputs and configurations are sampled"]
-PROBES = ["direct_stream_runs", "direct_preset_mismatch", "direct_ns_refused", "shared_stream_writes", "evictions", "ns_streams", "rdflib_streams", "generic_streams", "physical_GRAPHS",
+PROBES = ["direct_bad_statement_rejected", "direct_statement_refused", "direct_stream_runs", "direct_preset_mismatch", "direct_ns_refused", "shared_stream_writes", "evictions", "ns_streams", "rdflib_streams", "generic_streams", "physical_GRAPHS",
           "zero_name_ids", "zero_prefix_ids", "zero_entry_ids"]
 SHRINK_LISTS = ["ops"]
 
@@ -52,6 +53,28 @@ def gen_direct(rng, run, tier):
     ops = [["stmt", *T.to_json(st)] for st in stmts]
     for p_, i_ in nss:
         ops.insert(rng.randint(0, len(ops)), ["ns", p_, i_])
+    r = rng.random()
+    if r < 0.15 and stmts:
+        # a statement the encoder has to reject (unsupported object, for the generic integration inside a quoted
+        # triple whose outer subject and predicate repeat the previous statement); the caller goes on pushing
+        k = rng.randrange(len(stmts))
+        st = stmts[k]
+        bad = ["bad", *T.to_json(st[:2]), "nested" if integration == "generic" and rng.random() < 0.6 else "plain",
+               *(T.to_json(st[3:4]))]
+        pos = [i for i, o in enumerate(ops) if o[0] == "stmt"][k] + 1
+        ops.insert(pos, bad)
+        if bad[3] == "nested":
+            cfg["rdf_star"] = True
+    elif r < 0.3 and stmts:
+        # tables too small for one of the statements: the writer has to refuse it (C18), never write it wrongly
+        which = rng.choice(["names", "prefixes", "datatypes"])
+        if which == "names":
+            cfg["max_names"] = 8
+        elif which == "prefixes" and cfg["max_prefixes"]:
+            cfg["max_prefixes"] = rng.choice([1, 2])
+        elif cfg["max_datatypes"]:
+            cfg["max_datatypes"] = 1
+        cfg["maybe_undersized"] = True
     return {"kind": "direct", "cfg": cfg, "ops": ops}
 
 
@@ -84,25 +107,55 @@ def write_direct(cfg, ops, sim):
     conv = nodes.conv_stmt(cfg)
     out = io.BytesIO()
     refused = 0
+    written = []
+    n_stmt = -1
     stream.enroll()
     for op in ops:
+        if op[0] == "bad":
+            s_, p_ = (T.from_json(x) for x in op[1:3])
+            if cfg["integration"] == "generic":
+                from pyjelly.integrations.generic import generic_sink as gs
+                o_ = gs.Triple(T.to_generic(s_), T.to_generic(p_), object()) if op[3] == "nested" else object()
+                terms = [T.to_generic(s_), T.to_generic(p_), o_] + [T.to_generic(T.from_json(g)) for g in op[4:5]]
+                bad_st = gs.Triple(*terms) if len(terms) == 3 else gs.Quad(*terms)
+            else:
+                terms = [T.to_rdflib(s_), T.to_rdflib(p_), object()] + [T.to_rdflib(T.from_json(g)) for g in op[4:5]]
+                bad_st = tuple(terms)
+            try:
+                fr = push(bad_st)
+            except Exception as e:  # noqa: BLE001
+                sim.event("bad_statement_rejected", type(e).__name__)
+                sim.count("direct_bad_statement_rejected")
+                continue
+            raise HarnessError("a statement with an unsupported term was accepted")
         if op[0] == "ns":
             try:
                 stream.namespace_declaration(op[1], op[2])
             except Exception as e:  # noqa: BLE001
-                if cfg["ns"]:
+                if cfg["ns"] and not stream.failed:
                     raise
                 # refusing a namespace row for a version-1 stream is one of the two valid answers
                 refused += 1
                 sim.event("ns_refused", type(e).__name__)
             continue
-        fr = push(conv(T.from_json(op[1:])))
+        n_stmt += 1
+        try:
+            fr = push(conv(T.from_json(op[1:])))
+        except Exception as e:  # noqa: BLE001
+            # refusals are legitimate: the stream was marked failed by an earlier rejected statement, or the
+            # tables are too small for this statement.  What was written must still be a valid stream.
+            if not (stream.failed or cfg.get("maybe_undersized")):
+                raise
+            sim.event("statement_refused", n_stmt, type(e).__name__)
+            sim.count("direct_statement_refused")
+            continue
+        written.append(n_stmt)
         if fr:
             write_delimited(fr, out)
     fr = stream.flow.to_stream_frame()
     if fr:
         write_delimited(fr, out)
-    return out.getvalue(), refused
+    return out.getvalue(), refused, written
 
 
 def execute_direct(plan, sim):
@@ -113,7 +166,8 @@ def execute_direct(plan, sim):
         sim.count("direct_preset_mismatch")
     stmts, nss = nodes.split_ops(plan["ops"])
     try:
-        data, refused = write_direct(cfg, plan["ops"], sim)
+        data, refused, written = write_direct(cfg, plan["ops"], sim)
+        stmts = [stmts[i] for i in written]
     except Exception as e:  # noqa: BLE001
         return [{"clause": "C03.serialize_raised", "sig": {"exc": type(e).__name__, "entry": "direct"},
                  "msg": f"Stream driven directly raised {type(e).__name__}: {e}"}], None
